@@ -60,7 +60,10 @@ def callback_ops():
     """Reactions of the application inside the mode change callback (API calls made from inside callbacks): a self-starting device
     (PRE-OPERATIONAL -> OPERATIONAL), a device refusing OPERATIONAL or STOPPED, a status PDO triggered on a mode change."""
     ops = [("cbset", a, b) for a in (PREOP, OP, STOP) for b in (PREOP, OP, STOP) if a != b]
-    ops += [("cbtrig", a) for a in (PREOP, OP, STOP)] + [("cboff",)]
+    ops += [("cbtrig", a) for a in (PREOP, OP, STOP)]
+    # ... and inside the reset request callback, which the application receives after a reset commanded through the network has been
+    # carried out (the node is PRE-OPERATIONAL again and has sent its boot-up): what is requested there is not undone by the reset
+    ops += [("rrset", a) for a in (PREOP, OP, STOP)] + [("cboff",)]
     return ops
 
 
@@ -75,6 +78,7 @@ class Model:
         self.srpdo_pending = None     # received in OPERATIONAL, waiting for the next SYNC
         self.hbc_state = None
         self.nprobe = 0
+        self.rr = None                # mode the application requests inside CONmtResetRequest
         self.cb = None                # scripted reaction of the application inside CONmtModeChange: ("set", trigger, target) / ("trig", trigger)
         self.transit = False          # the last operation changed the mode at least once (even if it ended where it began)
 
@@ -145,10 +149,18 @@ def apply_op(m, sim, op, chk):
     boot = []
     extra = []
     resetreq = 0
+    rr_sees = None
     is_reset = False
     m.transit = False
     if m.mode == DEAD:
         return True              # after CONodeStop the application calls nothing but the probes
+    if op[0] == "rrset":
+        m.rr = op[1]
+        sim.cmd("resetcb setmode %d" % op[1])
+        return True
+    if op[0] == "cboff":
+        m.rr = None
+        sim.cmd("resetcb off")
     if op[0] in ("cbset", "cbtrig", "cboff"):
         m.cb = None if op[0] == "cboff" else (("set", op[1], op[2]) if op[0] == "cbset" else ("trig", op[1]))
         sim.cmd("modecb 0 off" if m.cb is None else ("modecb %d setmode %d" % (op[1], op[2]) if op[0] == "cbset" else "modecb %d trigpdo 0" % op[1]))
@@ -166,6 +178,9 @@ def apply_op(m, sim, op, chk):
                 resetreq = 1
                 m.transit = True
                 m.mode = leave_init(m, PREOP, extra)
+                rr_sees = m.mode
+                if m.rr is not None and m.rr != m.mode:
+                    m.mode = enter(m, m.rr, extra)
                 boot = [(0x700 + nid, b"\x00")]
         evs = sim.rx(0, bytes([cs, tgt]))
         canrx = (0, 0) if consumed else ((0, 1) if old == INIT else (0, 0))
@@ -218,6 +233,11 @@ def apply_op(m, sim, op, chk):
         boot = []
     if not chk.step(evs_cmp, boot, canrx, {"resetreq": resetreq}, "op"):
         return False
+    if resetreq:
+        seen = int(S.cbs(evs, "resetreq")[0][2])
+        if seen != rr_sees:
+            chk.fail("op/reset-request-before-reset", "CONmtResetRequest ran in mode %d, reference %d (the reset has been carried out when the application is told)" % (seen, rr_sees))
+            return False
     if not m.transit and not is_reset:
         if modes:
             chk.fail("op/mode-callback-without-change", "mode notification %r although the mode did not change" % modes)
